@@ -46,6 +46,7 @@ type WorldCfg struct {
 	StallMax      time.Duration `json:"stall_max,omitempty"`
 	SortedMaps    bool          `json:"sorted_maps,omitempty"`
 	SelectOrder   string        `json:"select_order,omitempty"`
+	UnlockYield   float64       `json:"unlock_yield,omitempty"`
 	Net           NetCfg        `json:"net"`
 	Modules       []string      `json:"modules"`
 	Flags         []string      `json:"flags,omitempty"`
@@ -82,7 +83,7 @@ type World struct {
 
 	ledger       *ledger
 	symOf        map[string]string // session uuid -> symbolic session name (differential checks)
-	lastActivity time.Duration // last non-sync-clock traffic in either direction
+	lastActivity time.Duration     // last non-sync-clock traffic in either direction
 	gauge0       gauges
 }
 
@@ -115,7 +116,7 @@ func NewWorld(cfg WorldCfg) *World {
 	w := &World{cfg: cfg, ledger: newLedger(), symOf: map[string]string{}}
 	w.sim = simrt.New(simrt.Config{
 		Seed: cfg.Seed, Policy: cfg.Policy, Sticky: cfg.Sticky, PCTDepth: cfg.PCTDepth, PCTLen: cfg.PCTLen,
-		StallProb: cfg.StallProb, StallMax: cfg.StallMax, SortedMaps: cfg.SortedMaps, SelectOrder: cfg.SelectOrder, Trace: cfg.Trace, MaxSteps: cfg.MaxSteps,
+		StallProb: cfg.StallProb, StallMax: cfg.StallMax, SortedMaps: cfg.SortedMaps, SelectOrder: cfg.SelectOrder, UnlockYield: cfg.UnlockYield, Trace: cfg.Trace, MaxSteps: cfg.MaxSteps,
 	})
 	w.netr = simrt.NewRand(cfg.Seed, "net")
 	seedUUID(cfg.Seed)
